@@ -1,34 +1,33 @@
 #!/bin/bash
-# Runs every confirmed seeded change under /verif/seeded against the quick check of its property
-# (in a scratch worktree, never in /repo) and writes /verif/seeded/RESULTS.json.
+# Runs every confirmed seeded change under seeded/ against the quick check of its property (in scratch worktrees of
+# /repo, never in /repo itself), JOBS at a time, and writes seeded/RESULTS.json.
+#   patch.rebased.diff  used instead of patch.diff when a later fix: commit moved the lines
+#   check_with          names the property whose check owns the effect (DESIGN.md §8.5 says why)
+#   SUPERSEDED          the change no longer breaks the property on the current tree (a fix ended what it relied on)
 cd "$(dirname "$(readlink -f "$0")")/.."
 out=$PWD/seeded/RESULTS.json
-tmp=$(mktemp)
-echo "{" > $tmp
-first=1
-for d in $(ls -d seeded/C*/ | sort); do
-  name=$(basename $d); prop=${name%%-*}
-  [ -n "${ONLY:-}" ] && [[ "$name" != $ONLY* ]] && continue
-  patch=$d/patch.diff; [ -f $d/patch.rebased.diff ] && patch=$d/patch.rebased.diff
-  note=""
+work=$(mktemp -d)
+# (an alternative-repository run needs the harness go.mod that a normal run generates)
+[ -f harness/go.mod ] || ./check C20 >/dev/null 2>&1
+one() {
+  d=${1%/}; name=$(basename $d); prop=${name%%-*}; res=$2/$name.json
   if [ -f $d/SUPERSEDED ]; then
-    # the change no longer breaks the property on the current tree (a later fix: commit took away what it relied on)
-    [ $first -eq 0 ] && echo "," >> $tmp; first=0
-    printf ' "%s": {"property": "%s", "check_exit": "", "detected": null, "keys": "", "note": "superseded: %s"}' "$name" "$prop" "$(tr -d '"\n' < $d/SUPERSEDED)" >> $tmp
-    echo "$name superseded"; continue
+    printf ' "%s": {"property": "%s", "check_exit": "", "detected": null, "keys": "", "note": "superseded: %s"}' "$name" "$prop" "$(tr -d '"\n' < $d/SUPERSEDED)" > $res
+    echo "$name superseded"; return
   fi
-  # a seed that breaks its property through another property's territory is run against that check
-  # (seeded/<name>/check_with names it; DESIGN.md §8.5 says why)
-  runprop=$prop; [ -f $d/check_with ] && runprop=$(cat $d/check_with)
+  patch=$d/patch.diff; [ -f $d/patch.rebased.diff ] && patch=$d/patch.rebased.diff
+  note=""; runprop=$prop; [ -f $d/check_with ] && runprop=$(cat $d/check_with)
   log=$(tools/try_seed.sh $patch $runprop 2>&1)
   rc=$(echo "$log" | grep -oE "== $runprop exit=[0-9]+" | grep -oE "[0-9]+$")
   [ "$runprop" != "$prop" ] && note="run against $runprop"
-  keys=$(echo "$log" | grep -oE "key=[^ ]+" | sort -u | head -6 | tr '\n' ' ')
+  keys=$(echo "$log" | grep -oE "key=[^ ]+" | sort -u | head -6 | tr '\n' ' ' | tr -d '"\\')
   echo "$log" | grep -q "applied with fuzz" && note="$note patch applied with fuzz"
   echo "$log" | grep -q "DOES NOT APPLY" && note="patch no longer applies to the current tree"
-  [ $first -eq 0 ] && echo "," >> $tmp; first=0
-  printf ' "%s": {"property": "%s", "check_exit": "%s", "detected": %s, "keys": "%s", "note": "%s"}' "$name" "$prop" "$rc" "$([ "$rc" = "1" ] && echo true || echo false)" "$keys" "$note" >> $tmp
+  printf ' "%s": {"property": "%s", "check_exit": "%s", "detected": %s, "keys": "%s", "note": "%s"}' "$name" "$prop" "$rc" "$([ "$rc" = "1" ] && echo true || echo false)" "$keys" "$note" > $res
   echo "$name exit=$rc $keys $note"
-done
-echo "" >> $tmp; echo "}" >> $tmp
-[ -z "${ONLY:-}" ] && mv $tmp $out || cat $tmp
+}
+export -f one
+ls -d seeded/C*/ | sort -V | { if [ -n "${ONLY:-}" ]; then grep "seeded/$ONLY"; else cat; fi; } | xargs -P ${JOBS:-3} -I{} bash -c 'one {} '"$work"
+{ echo "{"; first=1; for f in $(ls $work/*.json | sort -V); do [ $first -eq 0 ] && echo ","; first=0; cat $f; done; echo; echo "}"; } > $work/all
+if [ -z "${ONLY:-}" ]; then mv $work/all $out; else cat $work/all; fi
+rm -rf $work
